@@ -341,6 +341,7 @@ func mergeSummary(pr *phaseResult, mu *sync.Mutex, base string) {
 func raceClass(rep string) string { return eng.RaceClass(rep) }
 
 var harnessRaces int
+var irreproducibleStalls int
 
 // driverArtefact: one of the two accesses was made by the scheduler's driver goroutine, which runs
 // with its synchronisation events hidden from the detector (that is what keeps the tasks mutually
@@ -497,6 +498,14 @@ func main() {
 			// confirm by replaying the minimised file in a fresh process
 			ok, out := replayFresh(binOf(pr.Phase), v.Replay)
 			fmt.Printf("violation %s\n%s\n", v.Class, v.V.Detail)
+			if !ok && strings.HasSuffix(v.Replay, "-hang.json") {
+				// a stall that does not replay is the machine's, not the code's (a violation must
+				// replay to count); it is counted in the evidence and otherwise ignored
+				fmt.Printf("  (stall did not reproduce in a fresh process: ignored) %s\n", v.Replay)
+				os.Remove(v.Replay)
+				irreproducibleStalls++
+				continue
+			}
 			if !ok {
 				fmt.Printf("  (fresh-process replay did not reproduce: %s)\n", tail(out, 400))
 				fmt.Fprintln(os.Stderr, "INFRASTRUCTURE: a violation found in a batch did not replay in a fresh process:", v.Replay)
@@ -714,6 +723,7 @@ func writeEvidence(id, mode string, seed uint64, results []*phaseResult, nviol i
 	cov["reach_probes"] = probes
 	cov["switch_pairs_distinct"] = len(pairs)
 	cov["counters"] = extra
+	cov["irreproducible_stalls_ignored"] = irreproducibleStalls
 	cov["known_findings_observed"] = knownObs
 	cov["phases"] = phasesOut
 	cov["real_vs_stub"] = map[string]string{
